@@ -4,8 +4,9 @@
    att_input c st conn pdu out_size (AttSrvModel.v) transcribes server::l2cap_input and its 14 handlers
    with bounded buffers: None = Fault = an access outside the request / the caller's output buffer or a
    failing assert() of the code. Hypotheses of the property: 1 <= length pdu, 23 <= out_size. *)
-From BT Require Import Base.ListX AttDb.AttDbModel AttDb.AttDbExamples NQueue.NQueueModel
+From BT Require Import Base.ListX AttDb.AttDbModel AttDb.AttDbProofs AttDb.AttDbExamples NQueue.NQueueModel
   AttSrv.AttSrvModel AttSrv.AttSrvSpecC01 AttSrv.AttSrvProofsC01.
+From BT Require AttSrv.AttSrvProofsVal AttSrv.AttSrvNoFault AttSrv.AttSrvFrameList AttSrv.AttSrvMonitorC01.
 Local Open Scope N_scope.
 
 (* ---- (b) + (c): for EVERY configuration (well formed or not), every state, connection and request:
@@ -57,10 +58,48 @@ Theorem C01_no_fault_includes_refuted :
 Proof. split; vm_compute; reflexivity. Qed.
 Print Assumptions C01_no_fault_includes_refuted.
 
-(* what is proved of (a): the opcodes that touch no attribute (Error Response, Exchange MTU, Handle
-   Value Confirmation, every unsupported opcode) never fault, for every configuration and state.
-   MISSING: the eleven attribute requests for configurations without include_service<> and without
-   (shared_write_queue + CCCD); the tie (ASan/UBSan, asserts on) covers them, no theorem does. *)
+(* (a) PROVED for every request (all 14 handlers): for every well formed configuration without
+   include_service<> and without a characteristic whose 16 bit uuid is the internal 128 bit marker
+   0x0001, every state whose write queue holds validated elements (AttSrvProofsVal.elem_ok: at least
+   handle + offset, handle of an attribute), every live connection, every request and every
+   out_size with min( out_size, negotiated MTU ) >= 23: l2cap_input does not fault - no read outside
+   the request, no write outside the caller's buffer, no failing assert. *)
+Theorem C01_no_fault_wf :
+  forall c st cid pdu n k,
+    wf c -> no_includes c -> AttSrvNoFault.no_marker_uuids c ->
+    Forall (AttSrvProofsVal.elem_ok c) (wq_elems st) -> get_conn st cid = Some k ->
+    1 <= len pdu -> 23 <= N.min n (negotiated_mtu c k) ->
+    att_input c st cid pdu n <> None.
+Proof. exact AttSrvNoFault.att_input_no_fault. Qed.
+Print Assumptions C01_no_fault_wf.
+
+(* the history version: C01_no_fault_full restricted to these configurations. Every state reachable
+   from the initial one by ANY operations satisfies the hypotheses of C01_no_fault_wf (write queue:
+   att-val's simulation invariant; connections and MTU >= 23: att-mtu's negotiated_mtu_history). *)
+Theorem C01_no_fault_reachable :
+  forall c ops cid pdu n,
+    wf c -> no_includes c -> AttSrvNoFault.no_marker_uuids c ->
+    (cid < n_conns)%nat -> 1 <= len pdu -> 23 <= n ->
+    att_input c (srv_final c (srv_init c) ops) cid pdu n <> None.
+Proof. exact AttSrvNoFault.att_input_no_fault_reachable. Qed.
+Print Assumptions C01_no_fault_reachable.
+
+(* the uuid hypothesis is needed: characteristic_uuid16< 0x0001 > collides with the marker the attribute
+   table uses for 128 bit uuids; Find Information starting at its value attribute lets
+   write_128bit_uuid assert (reproduced on the real code: server.hpp:1663). Not a known finding of the
+   tie (the generator does not produce this uuid); recorded in docs/C01.md. *)
+Definition cfg_marker_uuid : cfg :=
+  mkCfg [mkSvc (U16 6160) false None []
+           [mkChar (U16 1) HNone (VBind 1 false) false false false false false false None [] (mkEnc false false false)]
+           (mkEnc false false false) []]
+        23 None [] (mkEnc false false false).
+Example C01_marker_uuid_faults :
+  wf cfg_marker_uuid /\ no_includes cfg_marker_uuid /\ AttSrvNoFault.no_marker_b cfg_marker_uuid = false
+  /\ att_input cfg_marker_uuid (srv_init cfg_marker_uuid) O [4; 3; 0; 3; 0] 23 = None.
+Proof. repeat split; vm_compute; reflexivity. Qed.
+
+(* (a) for the opcodes that touch no attribute (Error Response, Exchange MTU, Handle Value
+   Confirmation, every unsupported opcode): no fault for EVERY configuration and state. *)
 Theorem C01_no_fault_partial :
   forall c st cid pdu n k op,
     get_conn st cid = Some k -> rd pdu 0 = Some op ->
@@ -85,6 +124,42 @@ Proof.
   specialize (H _ _ _ _ _ _ _ W E). vm_compute in E. injection E as _ <-. vm_compute in H. discriminate H.
 Qed.
 Print Assumptions C01_framing_large_mtu_refuted.
+
+(* (c') PROVED below the 8 bit limit: as long as min( out_size, negotiated MTU ) <= 256 every response
+   of l2cap_input passes frame_list_ok: Find Information = 05, format, a positive number of 4 / 18 byte
+   entries; Find By Type Value = 07 + 4 byte entries; Read By Type = 09, length, entries of that length;
+   Read By Group Type = 11, 6 / 20, entries of that length; Exchange MTU Response 3 bytes, Write and
+   Execute Write Response 1 byte, Prepare Write Response >= 5 bytes. For every wf configuration (needs
+   only well formed service uuids), every state and request. (Read By Type alone holds up to 257:
+   AttSrvFrameList.read_by_type_fl; 257 is excluded for Find By Type Value: 64 entries = 256 bytes.) *)
+Theorem C01_framing_small_mtu :
+  forall c st cid pdu n st' rs k,
+    wf c -> get_conn st cid = Some k -> N.min n (negotiated_mtu c k) <= 256 ->
+    att_input c st cid pdu n = Some (st', rs) -> frame_list_ok rs = true.
+Proof. exact AttSrvFrameList.att_input_frame_list. Qed.
+Print Assumptions C01_framing_small_mtu.
+
+(* ---- the C01 monitor accepts every trace of the model: (a), (b), (c), (c') over histories. For wf
+   configurations without include_service<>, without the marker uuid, with max_mtu <= 256, and
+   histories of input-side operations (l2cap_input on connections 0..2, security changes,
+   disconnects, value access). The monitor's MTU tracking is the model's client MTU (invariant
+   AttSrvMonitorC01.inv; both follow C08's mtu_after). NOT covered: l2cap_output and notify / indicate
+   operations in the history (their absence of faults is not proved; C08 / C10 / C11 judge them). *)
+Theorem C01_monitor_accepts_model :
+  forall c ops,
+    wf c -> no_includes c -> AttSrvNoFault.no_marker_uuids c -> max_mtu c <= 256 ->
+    forallb AttSrvMonitorC01.input_side ops = true ->
+    monitor c (srv_run c (srv_init c) ops) = None.
+Proof. exact AttSrvMonitorC01.monitor_accepts_model. Qed.
+Print Assumptions C01_monitor_accepts_model.
+
+(* the hypotheses are satisfiable by the corpus configurations *)
+Example C01_hypotheses_satisfiable :
+  (wf cfg_basic3 /\ no_includes cfg_basic3 /\ AttSrvNoFault.no_marker_uuids cfg_basic3 /\ max_mtu cfg_basic3 <= 256)
+  /\ (wf cfg_fixed_handles /\ no_includes cfg_fixed_handles /\ AttSrvNoFault.no_marker_uuids cfg_fixed_handles)
+  /\ (wf cfg_values /\ no_includes cfg_values /\ AttSrvNoFault.no_marker_uuids cfg_values)
+  /\ (wf cfg_mtu300 /\ no_includes cfg_mtu300 /\ AttSrvNoFault.no_marker_uuids cfg_mtu300).
+Proof. repeat split; try (vm_compute; reflexivity); vm_compute; intros X; discriminate X. Qed.
 
 (* a range inside a gap of the handle space (corpus configuration `fixed_handles`, 7..7): the Find
    Information Response was 05 01 without any entry (former C01_framing_empty_list_refuted); repaired by
